@@ -7,18 +7,18 @@ namespace Acb.Costs
 
 /-! ### sums over key lists -/
 
-def sumOver (l : List Nat) (f : Nat → Rat) : Rat := (l.map f).sum
+def sumOver {κ : Type} (l : List κ) (f : κ → Rat) : Rat := (l.map f).sum
 
-@[simp] theorem sumOver_nil (f : Nat → Rat) : sumOver [] f = 0 := rfl
-@[simp] theorem sumOver_cons (x : Nat) (l : List Nat) (f : Nat → Rat) :
+@[simp] theorem sumOver_nil {κ : Type} (f : κ → Rat) : sumOver [] f = 0 := rfl
+@[simp] theorem sumOver_cons {κ : Type} (x : κ) (l : List κ) (f : κ → Rat) :
     sumOver (x :: l) f = f x + sumOver l f := by simp [sumOver]
-theorem sumOver_append (l₁ l₂ : List Nat) (f : Nat → Rat) :
+theorem sumOver_append {κ : Type} (l₁ l₂ : List κ) (f : κ → Rat) :
     sumOver (l₁ ++ l₂) f = sumOver l₁ f + sumOver l₂ f := by
   induction l₁ with
   | nil => simp; grind
   | cons x xs ih => simp [ih]; grind
 
-theorem sumOver_congr {l : List Nat} {f g : Nat → Rat} (h : ∀ x ∈ l, g x = f x) :
+theorem sumOver_congr {κ : Type} {l : List κ} {f g : κ → Rat} (h : ∀ x ∈ l, g x = f x) :
     sumOver l g = sumOver l f := by
   induction l with
   | nil => simp
@@ -26,7 +26,7 @@ theorem sumOver_congr {l : List Nat} {f g : Nat → Rat} (h : ∀ x ∈ l, g x =
     simp only [sumOver_cons]
     rw [ih (fun y hy => h y (by simp [hy])), h x (by simp)]
 
-theorem sumOver_update {l : List Nat} (hn : l.Nodup) {s : Nat} (hs : s ∈ l) {f g : Nat → Rat}
+theorem sumOver_update {κ : Type} {l : List κ} (hn : l.Nodup) {s : κ} (hs : s ∈ l) {f g : κ → Rat}
     (hg : ∀ x, x ≠ s → g x = f x) : sumOver l g = sumOver l f - f s + g s := by
   induction l with
   | nil => simp at hs
@@ -44,7 +44,7 @@ theorem sumOver_update {l : List Nat} (hn : l.Nodup) {s : Nat} (hs : s ∈ l) {f
         · exact h
       rw [ih hn'.2 hs', hg x hx]; grind
 
-theorem sumOver_perm {l₁ l₂ : List Nat} (h : l₁.Perm l₂) (f : Nat → Rat) :
+theorem sumOver_perm {κ : Type} {l₁ l₂ : List κ} (h : l₁.Perm l₂) (f : κ → Rat) :
     sumOver l₁ f = sumOver l₂ f := by
   induction h with
   | nil => rfl
@@ -137,7 +137,7 @@ theorem today_nil_of_sec_not_mem {P : List Row} {s : Nat} (h : ¬ ∃ r ∈ coun
   simp only [List.mem_filter] at hr
   exact absurd ⟨r, hr.1, by simpa using hr.2⟩ h
 
-theorem sumOver_addKey_new {l : List Nat} {k : Nat} (hk : k ∉ l) (f : Nat → Rat) :
+theorem sumOver_addKey_new {κ : Type} [DecidableEq κ] {l : List κ} {k : κ} (hk : k ∉ l) (f : κ → Rat) :
     sumOver (addKey l k) f = sumOver l f + f k := by
   unfold addKey; simp [hk, sumOver_append]; grind
 
